@@ -35,6 +35,11 @@ func NewOverlay(inner KeyValueTree) OverlayTree {
 
 // Implements KeyValueTree.
 func (o *treeOverlay) Insert(_ context.Context, key, value []byte) error {
+	// Same as the tree itself: a nil value means an empty value, not absence.
+	if value == nil {
+		value = []byte{}
+	}
+
 	o.overlay.Set(string(key), value)
 	o.dirty[string(key)] = true
 	return nil
